@@ -160,9 +160,26 @@ def _layout(c):
            [("<base>", b.get("type") or b.get("name"), False) for b in c.get("bases", [])]
 
 
-def _effects(f):
+_PURE = {}
+
+
+def _pure_repo_fn(prog, fid, depth=0):
+    """a function of /repo whose body (transitively, through /repo callees) has none of the effects below: calling it changes nothing -
+    e.g. fixed_vector's non-const begin() / end() / data()"""
+    if fid in _PURE:
+        return _PURE[fid]
+    g = prog.fns.get(fid) if prog is not None else None
+    if g is None or not g.has_cfg or not (g.file or "").startswith("/repo/") or depth > 6:
+        return False
+    _PURE[fid] = True  # recursion: assume pure while looking
+    res = not _effects(g, prog, depth + 1)
+    _PURE[fid] = res
+    return res
+
+
+def _effects(f, prog=None, depth=0):
     """multiset of the state-changing constructs of f, position free: built-in assignments / increments, calls of non-const member
-    functions (standard lookups that only hand out a position excepted), delete, and raises"""
+    functions (standard lookups that only hand out a position and effect-free functions of /repo excepted), delete, and raises"""
     from collections import Counter
     from sa.ir import fmt
     from .common import std_lookup
@@ -194,6 +211,8 @@ def _effects(f):
                 if n.get("noreturn") or short(name) in ("raise",):
                     out["raise %s" % name] += 1
                 elif is_member and not const and not n.get("static_method"):
+                    if prog is not None and _pure_repo_fn(prog, cal, depth):
+                        continue
                     out["call %s" % name] += 1
             elif k == "throw":
                 out["throw"] += 1
@@ -231,7 +250,10 @@ def compare_configuration(ctx, prog2, label, where):
         if g is None or not g.has_cfg:
             continue
         nfn += 1
-        ea, eb = _effects(f), _effects(g)
+        _PURE.clear()
+        ea = _effects(f, ctx.prog)
+        _PURE.clear()
+        eb = _effects(g, prog2)
         if ea == eb:
             continue
         gone = sorted((ea - eb).elements())
